@@ -1079,7 +1079,25 @@ class Evaluator:
             return [Path("panic", None, st, name)]
         rty = dest["ty"]
         rv = st.new_sym("ret:" + name.split("::")[-1], rty)
-        st.emit(("call", name, tuple(args), rv, w, fnj.get("trait")))
+        loaded = []
+        for a in args:
+            if a[0] == "ref":
+                try:
+                    loaded.append(self.load(st, a[1]))
+                except Unsupported:
+                    loaded.append(None)
+            else:
+                loaded.append(None)
+        st.emit(("call", name, tuple(args), rv, w, fnj.get("trait"), tuple(loaded)))
+        # an unknown callee may write through every &mut it receives
+        for i, a in enumerate(args):
+            if a[0] == "ref" and a[2] and a[1][0] in ("loc", "heap"):
+                hv = st.new_sym("mut:%s:%d" % (name.split("::")[-1], i), "?")
+                if a[1][0] == "heap":
+                    old = st.heap[a[1][1]]
+                    st.heap[a[1][1]] = self.update(st, old, a[1][-1], hv, w) if a[1][-1] else hv
+                else:
+                    self.store(st, a[1], hv, w)
         return self.finish_call(st, act, dest, target, rv, w)
 
     def apply_results(self, ci, res):
